@@ -498,29 +498,43 @@ func (p *Prog) modeEdge(e CondEdge) (nocopy bool, ok bool) {
 	}
 	base, neg := condOf(iff.Cond)
 	// a mode test extracted into an expression function (`dsc.waitsRelease()`) denotes its body
-	s := p.SymX(base)
-	for s.Op == "un" && s.Name == "!" {
-		s, neg = s.Args[0], !neg
-	}
 	truth := (e.Succ == 0) != neg
-	up := func(x *Sym) *Sym {
-		x = x.StripConv()
-		if x.Op == "param" {
-			x = p.upParam(x, 0).StripConv() // the flag / channel handed to a helper as an argument
-		}
-		return x
+	return p.modeOfSym(p.SymX(base), truth, 0)
+}
+
+// modeOfSym: does `s == truth` assert the no-copy mode (true) / the copy mode (false)? The flag may
+// be the option itself, `Released != nil`, their negation, or a parameter that every call site feeds
+// with one of these (prepareItem(item, dsc.opts.Released != nil)).
+func (p *Prog) modeOfSym(s *Sym, truth bool, depth int) (nocopy bool, ok bool) {
+	if s == nil || depth > 4 {
+		return false, false
 	}
-	if _, path, okp := up(s).FieldPath(); okp && strings.Join(path, ".") == "opts.NoCopy" {
+	for s.Op == "un" && s.Name == "!" {
+		s, truth = s.Args[0], !truth
+	}
+	x := s.StripConv()
+	if x.Op == "param" {
+		up := p.upParam(x, 0)
+		if up != x && up.String() != x.String() {
+			return p.modeOfSym(p.expandSym(up, 0), truth, depth+1)
+		}
+		return false, false
+	}
+	if _, path, okp := x.FieldPath(); okp && strings.Join(path, ".") == "opts.NoCopy" {
 		return truth, true
 	}
-	if s.Op == "bin" && (s.Name == "!=" || s.Name == "==") {
-		l, r := s.Args[0], s.Args[1]
+	if x.Op == "bin" && (x.Name == "!=" || x.Name == "==") {
+		l, r := x.Args[0], x.Args[1]
 		if l.Op == "const" && l.Name == "nil" {
 			l, r = r, l
 		}
 		if r.Op == "const" && r.Name == "nil" {
-			if _, path, okp := up(l).FieldPath(); okp && strings.Join(path, ".") == "opts.Released" {
-				if s.Name == "!=" {
+			ls := l.StripConv()
+			if ls.Op == "param" {
+				ls = p.upParam(ls, 0).StripConv() // the Released channel handed to a helper as an argument
+			}
+			if _, path, okp := ls.FieldPath(); okp && strings.Join(path, ".") == "opts.Released" {
+				if x.Name == "!=" {
 					return truth, true
 				}
 				return !truth, true
